@@ -10,10 +10,48 @@ from .c20 import rec_addr
 
 LEVEL = 'other'
 LVL = 'structures::paging::page_table::PageTableLevel'
-HELPERS = {
-    'mapped': "<%s<'_, P> as %sCleanUp>::clean_up_addr_range::clean_up" % (MAPPED, MP),
-    'recursive': "<%s<'_> as %sCleanUp>::clean_up_addr_range::clean_up" % (REC, MP),
-}
+CLEANUP_SELF = {'mapped': MAPPED + "<'_, P>", 'recursive': REC + "<'_>"}
+
+
+def resolve_helper(I, impl):
+    """the recursive clean-up helper of an implementation: the crate function that CleanUp::clean_up_addr_range calls and that takes a
+    PageTableLevel and a PageRangeInclusive - found through the call graph and the parameter types, not by name. Returns
+    (function name, {role: parameter position}) with roles table / level / range / dealloc / walker / rindex."""
+    from ..mirwalk import callees
+    car = '<%s as %sCleanUp>::clean_up_addr_range' % (CLEANUP_SELF[impl], MP)
+    f = I.fn.get(car)
+    if f is None:
+        raise Unsupported('CleanUp::clean_up_addr_range of %s not found' % impl)
+    for bi, c, target, loc in callees(f):
+        h = I.fn.get(target)
+        if h is None or target == car:
+            continue
+        roles = {}
+        for i in range(h['argc']):
+            t = h['locals'][i + 1]
+            tt = t.get('to') if t.get('k') == 'ref' else t
+            nm = (tt or {}).get('name') or ''
+            if nm == TBL:
+                roles['table'] = i
+            elif nm == LVL:
+                roles['level'] = i
+            elif nm == RANGE:
+                roles['range'] = i
+            elif nm.endswith('PageTableWalker'):
+                roles['walker'] = i
+            elif nm.endswith('PageTableIndex'):
+                roles['rindex'] = i
+            elif (tt or {}).get('k') == 'param':
+                roles['dealloc'] = i
+        if {'table', 'level', 'range', 'dealloc'} <= set(roles) and (('walker' in roles) if impl == 'mapped' else ('rindex' in roles)):
+            return target, roles
+    raise Unsupported('no clean-up helper (PageTable, PageTableLevel, PageRangeInclusive, deallocator) is called from %s' % car)
+
+
+class _Helpers(dict):
+    """HELPERS[impl] kept for callers that only need the name (resolved lazily per interpreter)"""
+
+
 RANGE = 'structures::paging::page::PageRangeInclusive'
 DEALLOC = 'structures::paging::frame_alloc::FrameDeallocator::deallocate_frame'
 
@@ -92,9 +130,19 @@ def page_half(name):
 def helper(chk, impl):
     lab = Lab10(chk)
     I = lab.I
-    fn_ = HELPERS[impl]
+    fn_, roles = resolve_helper(I, impl)
     site = fn_site(I, fn_)
     I.opaque_fns |= {fn_}
+    nargs = I.fn[fn_]['argc']
+
+    def by_role(vals):
+        a = [None] * nargs
+        for r, v in vals.items():
+            if r in roles:
+                a[roles[r]] = v
+        if any(x is None for x in a):
+            raise Unsupported('clean-up helper %s has a parameter of unknown role' % fn_)
+        return a
     for lv in (4, 3, 2, 1):
         st = State()
         st.mem[('obj', 'T')] = table_val('T')
@@ -103,9 +151,10 @@ def helper(chk, impl):
         if impl == 'mapped':
             walker = Struct(MP + 'mapped_page_table::PageTableWalker', [Opaque('frame-mapping')])
             st.mem[('arg', 'walker')] = walker
-            args = [Ref(('obj', 'T')), Ref(('arg', 'walker')), level, rng, Opaque('deallocator')]
+            args = by_role({'table': Ref(('obj', 'T')), 'walker': Ref(('arg', 'walker')), 'level': level, 'range': rng, 'dealloc': Opaque('deallocator')})
         else:
-            args = [I.sym_value(adt('structures::paging::page_table::PageTableIndex'), 'r'), Ref(('obj', 'T')), level, rng, Opaque('deallocator')]
+            args = by_role({'rindex': I.sym_value(adt('structures::paging::page_table::PageTableIndex'), 'r'), 'table': Ref(('obj', 'T')), 'level': level, 'range': rng,
+                            'dealloc': Opaque('deallocator')})
         chk.count('function-instances')
         outs = I.run(fn_, args, st, {'P': {'k': 'param', 'name': 'P'}}, None, True)
         chk.count('paths', len(outs))
@@ -174,7 +223,7 @@ def helper(chk, impl):
             if not (present == 1 and huge == 0):
                 why.add('recursion into a slot not known present and non-huge (present=%s huge=%s)' % (present, huge))
             a = rec[0][2]
-            ti, li, ri = (0, 2, 3) if impl == 'mapped' else (1, 2, 3)
+            ti, li, ri = roles['table'], roles['level'], roles['range']
             # level passed: the next lower one
             if not (isinstance(a[li], Enum) and a[li].vname == SP.LEVEL_NAMES[lv - 1]):
                 why.add('child level is %r' % (a[li],))
@@ -213,7 +262,7 @@ def helper(chk, impl):
                 why.add('the child range is not clamped to the parent range by max(start)/min(end)')
             # what happens after the recursive call
             res_id = rec[0][5]
-            br = [e for e in after[after.index(rec[0]):] if e[0] == 'branch' and isinstance(e[1], tuple) and e[1][0] == 'v' and e[1][1].startswith('clean_up#%d' % res_id)]
+            br = [e for e in after[after.index(rec[0]):] if e[0] == 'branch' and isinstance(e[1], tuple) and e[1][0] == 'v' and e[1][1].startswith('%s#%d' % (fn_.split('::')[-1], res_id))]
             freed = br and ((br[0][2] == 1) != br[0][1][3])
             if freed:
                 n_free += 1
@@ -280,7 +329,7 @@ def entry_points(chk, impl):
     ty = {'mapped': MAPPED + "<'_, P>", 'recursive': REC + "<'_>"}[impl]
     car = '<%s as %sCleanUp>::clean_up_addr_range' % (ty, MP)
     cu = '<%s as %sCleanUp>::clean_up' % (ty, MP)
-    helperfn = HELPERS[impl]
+    helperfn, roles = resolve_helper(I, impl)
     # clean_up_addr_range: helper(root, Four, range, dealloc), result discarded
     st = lab.setup(impl)
     I.opaque_fns |= {helperfn}
@@ -293,7 +342,7 @@ def entry_points(chk, impl):
         ok = ok and len(calls) == 1 and calls[0][1] == helperfn
         if ok:
             a = calls[0][2]
-            ti, li, ri = (0, 2, 3) if impl == 'mapped' else (1, 2, 3)
+            ti, li, ri = roles['table'], roles['level'], roles['range']
             ok = isinstance(a[ti], Ref) and a[ti].loc == ('obj', 'P4') and isinstance(a[li], Enum) and a[li].vname == 'Four' and a[ri] is rng
             ok = ok and not [e for e in o.st.events if e[0] in ('write', 'rawderef', 'zero', 'branch', 'asm')] and (isinstance(o.val, Struct) and not o.val.fields)
     chk.ob('clean-up', '%s clean_up_addr_range: one helper call on (level-4 table, Four, the given range); its result is discarded, the root is never freed' % impl, ok, 'paths %r' % (outs,), fn_site(I, car))
